@@ -79,6 +79,10 @@ Choices(c, m) == {""} \cup {b[1] : b \in PMap(c, m)} \cup (AllPrefixes(c) \ {b[1
         same           written next to statement j on the same node (same T, U, V)
         refine-on      (must) added to that node by `refine` under the uses that copies it (T = U of j)
         deviate-on     (must) added to that node by a `deviation` written in module T
+        uses-when      (when) written on the uses that copies the node (T = U of j) and handed down to it
+        augment-when   (when) written on the augment that adds the node and handed down to it
+     Two statements of one node may have byte-identical text and still be written in different units, i.e. be
+     two statements with two prefix scopes (a leaf's own when and the when of the uses that copies it).
      T : module in which the statement is textually written;  U, V as above
      e : expression (index into the pool of its kind), pf : prefix per slot    *)
 Places(kind) == CASE kind = "must" -> {"direct", "grp-local", "grp-cross", "grp-chain", "grp-unused", "augment", "refine", "deviate-add"}
@@ -102,14 +106,14 @@ Sites(c, place) ==
 \* the module whose namespace an unprefixed name belongs to; "*" = not judged (RFC 6020 is silent for
 \* a typedef used from another module, for a when whose context node is an augment's target and for
 \* a must that a deviation adds to a node of another module)
-CurMod(s) == CASE s.place \in {"direct", "grp-local", "typedef-local", "augment", "when-uses", "refine", "grp-unused", "typedef-unused", "refine-on"} -> s.T
+CurMod(s) == CASE s.place \in {"direct", "grp-local", "typedef-local", "augment", "when-uses", "refine", "grp-unused", "typedef-unused", "refine-on", "uses-when"} -> s.T
                [] s.place \in {"grp-cross", "grp-chain"} -> s.U
                [] s.place = "same" -> (IF s.hp \in {"grp-cross", "grp-chain"} THEN s.U ELSE s.T)
                [] OTHER -> "*"
 \* is the statement named by the error judged?  (a `when` inherited from uses / augment is carried by
 \* every node it is copied to, a must added by refine / deviate is written in one place and carried
 \* by a node written in another: which statement "carries" it is a matter of taste)
-NamedJudged(s) == s.place \notin {"when-uses", "when-augment", "refine", "deviate-add", "refine-on", "deviate-on"}
+NamedJudged(s) == s.place \notin {"when-uses", "when-augment", "refine", "deviate-add", "refine-on", "deviate-on", "uses-when", "augment-when"}
 
 \* does a machine for the statement appear in the compiled schema (when the module set compiles)?
 Observable(s) == s.place \notin {"grp-unused", "typedef-unused"}
@@ -200,7 +204,7 @@ ExtraOne(c, h, j, kind, mode, good, used) ==
                         : pf \in {RandomElement(IF good THEN PfGood(c, t, ExprAt(kind, e)) ELSE PfChoices(c, t, ExprAt(kind, e)))}}
                        : e \in {IF good \/ RandomElement(1..2) = 1 THEN RandomElement((1..NAccept(kind)) \ used)
                                 ELSE NAccept(kind) + RandomElement(1..Len(RejectPool(kind)))}}
-                : t \in {CASE mode = "same" -> h.T [] mode = "refine-on" -> h.U [] OTHER -> RandomElement(DevUnits(c, h))}}
+                : t \in {CASE mode \in {"same", "augment-when"} -> h.T [] mode \in {"refine-on", "uses-when"} -> h.U [] OTHER -> RandomElement(DevUnits(c, h))}}
          : dummy \in {1}}
 \* a bad statement must really be bad (a draw from all prefixes may come out well-formed): draw until it is
 RECURSIVE ExtraBad(_, _, _, _, _, _, _)
@@ -212,9 +216,23 @@ RECURSIVE HostBad(_, _, _, _)
 HostBad(c, k, p, fuel) == LET X == SampleOne(c, k, p, FALSE) IN
                           IF fuel = 0 \/ \E x \in X : Bad(c, x) THEN X ELSE HostBad(c, k, p, fuel - 1)
 UsedE(h, kind) == IF h.kind = kind THEN {h.e} ELSE {}
+SeqOf(X) == IF X = {} THEN << >> ELSE <<CHOOSE x \in X : TRUE>>
+\* a when handed down to the node of host h from the uses that copies it / the augment that adds it: two times out of
+\* three the very text of a when the node already has (prev), else an expression of its own
+ViaWhen(c, h, prev) ==
+  LET mode == IF h.place \in {"grp-local", "grp-cross"} THEN "uses-when" ELSE IF h.place = "augment" THEN "augment-when" ELSE ""
+      ew == SelectSeq(prev, LAMBDA x : x.kind = "when")
+  IN IF mode = "" THEN {}
+     ELSE IF ew # << >> /\ RandomElement(1..3) <= 2
+     THEN {[ew[1] EXCEPT !.place = mode, !.T = IF mode = "uses-when" THEN h.U ELSE h.T, !.on = 1, !.hp = h.place]}
+     ELSE ExtraOne(c, h, 1, "when", mode, RandomElement(BOOLEAN), {})
+\* a must added by refine with the very text of the host's own must (written in the using unit)
+CopyMust(c, h) == IF h.kind = "must" /\ h.place \in {"grp-local", "grp-cross"} /\ RandomElement(1..2) = 1
+                  THEN {[h EXCEPT !.place = "refine-on", !.T = h.U, !.on = 1, !.hp = h.place]} ELSE {}
 StackOne(c) ==
-  UNION {UNION {UNION {UNION {UNION {UNION {UNION {
-     {[cfg |-> c, stmts |-> IF n3 THEN <<h, x2, x3, x4>> ELSE <<h, x2, x3>>]
+  UNION {UNION {UNION {UNION {UNION {UNION {UNION {UNION {
+     {[cfg |-> c, stmts |-> base \o SeqOf(ViaWhen(c, h, base)) \o SeqOf(CopyMust(c, h))]
+        : base \in {IF n3 THEN <<h, x2, x3, x4>> ELSE <<h, x2, x3>>}}
         : x4 \in Extra(c, h, 1, "must", m4, bad = 4, UsedE(h, "must") \cup {x2.e, x3.e})}
        : m4 \in {RandomElement(Modes(c, h))}}
       : x3 \in Extra(c, h, 1, k3, IF k3 = "when" THEN "same" ELSE RandomElement(Modes(c, h)), bad = 3, UsedE(h, k3) \cup (IF k3 = "must" THEN {x2.e} ELSE {}))}
